@@ -2,7 +2,7 @@
    statements: every store reached by batches is sorted, the modelled engine answers every read like the
    sorted-map reference, and the answer does not depend on the engine kind *)
 From ZV Require Import Common.Bytes Common.BytesFacts Eng.Consts Eng.Model
-  Eng.ProofsOrder Eng.ProofsMap Eng.ProofsBatch Eng.ProofsIter.
+  Eng.ProofsOrder Eng.ProofsMap Eng.ProofsBatch Eng.ProofsIter Eng.ProofsRadix.
 Open Scope Z_scope.
 
 (* ---------- what the ideal cursor means ---------- *)
@@ -156,37 +156,39 @@ Proof.
 Qed.
 
 (* ---------- scripts ---------- *)
-Fixpoint run_db (bounded : bool) (d : db) (ss : list step) : db :=
+Fixpoint run_db (k : ekind) (d : db) (ss : list step) : db :=
   match ss with
   | [] => d
-  | s :: r => run_db bounded (fst (run_step bounded d s)) r
+  | s :: r => run_db k (fst (run_step k d s)) r
   end.
 
-Lemma run_step_sorted bounded d s :
-  ksorted (committed d) -> ksorted (committed (fst (run_step bounded d s))).
+Lemma run_step_sorted k d s :
+  ksorted (committed d) -> ksorted (committed (fst (run_step k d s))).
 Proof.
   intro Hs. destruct s; simpl; auto.
-  unfold db_commit. destruct (apply_ops (committed d) (pending d)) eqn:E; simpl; auto.
-  eapply apply_ops_sorted; eauto.
+  - unfold db_commit. destruct (apply_ops (committed d) (pending d)) eqn:E; simpl; auto.
+    eapply apply_ops_sorted; eauto.
+  - destruct k; auto.
 Qed.
 
 (* every store an engine can reach from the empty one is a sorted map *)
-Lemma reachable_sorted bounded ss : forall d,
-  ksorted (committed d) -> ksorted (committed (run_db bounded d ss)).
+Lemma reachable_sorted k ss : forall d,
+  ksorted (committed d) -> ksorted (committed (run_db k d ss)).
 Proof.
   induction ss as [|s r IH]; intros d Hs; simpl; auto. apply IH. now apply run_step_sorted.
 Qed.
 
-Lemma reachable_from_empty_sorted bounded ss : ksorted (committed (run_db bounded db_empty ss)).
+Lemma reachable_from_empty_sorted k ss : ksorted (committed (run_db k db_empty ss)).
 Proof. apply reachable_sorted. exact I. Qed.
 
-(* the reference: the same script answered declaratively from the sorted map (no cursor, no wrapper) *)
+(* the reference: the same script answered declaratively from the sorted map (no wrapper, and the ideal
+   cursor over the whole store for raw cursor scripts) *)
 Definition ref_step (d : db) (s : step) : db * result :=
   match s with
   | SIter o vt => (d, RKVs (strip_kvs vt (Some (range_query (committed d) o))))
   | SRangeIter o vt => (d, RKVs (strip_kvs vt (Some (range_query (committed d) (no_limit o)))))
   | SCursor mn mx tp ops => (d, RCursor (cops_run false (mkcur (committed d) CInv) ops))
-  | _ => run_step false d s
+  | _ => run_step KPlain d s
   end.
 
 Fixpoint ref_script (d : db) (ss : list step) : list result :=
@@ -208,34 +210,34 @@ Proof.
   unfold engine_view. destruct bounded; auto. apply filter_all_true. intros; reflexivity.
 Qed.
 
-Lemma run_step_ref bounded d s :
-  ksorted (committed d) -> step_portable s = true -> run_step bounded d s = ref_step d s.
+Lemma run_step_ref k d s :
+  ksorted (committed d) -> step_portable s = true -> run_step k d s = ref_step d s.
 Proof.
   intros Hs Hp. destruct s; simpl; auto.
   - now rewrite wrapper_correct.
   - now rewrite range_iterator_correct.
-  - destruct min, max; try discriminate. unfold get_iterator. now rewrite engine_view_unbounded.
+  - destruct min, max; try discriminate. destruct k.
+    + now rewrite radix_script_is_ideal.
+    + unfold get_iterator. now rewrite engine_view_unbounded.
+    + unfold get_iterator. now rewrite engine_view_unbounded.
 Qed.
 
-Lemma ref_step_db d s : fst (ref_step d s) = fst (run_step false d s).
-Proof. destruct s; reflexivity. Qed.
-
-Theorem script_refines_reference bounded ss : forall d,
+Theorem script_refines_reference k ss : forall d,
   ksorted (committed d) -> forallb step_portable ss = true ->
-  run_script bounded d ss = ref_script d ss.
+  run_script k d ss = ref_script d ss.
 Proof.
   induction ss as [|s r IH]; intros d Hs Hp; simpl; auto.
   simpl in Hp. apply andb_true_iff in Hp as [Hp1 Hp2].
-  rewrite (run_step_ref bounded d s Hs Hp1).
+  rewrite (run_step_ref k d s Hs Hp1).
   destruct (ref_step d s) as [d' x] eqn:E. f_equal. apply IH; auto.
   replace d' with (fst (ref_step d s)) by now rewrite E.
-  rewrite <- (run_step_ref bounded d s Hs Hp1). now apply run_step_sorted.
+  rewrite <- (run_step_ref k d s Hs Hp1). now apply run_step_sorted.
 Qed.
 
 (* hence no script's outcome depends on the engine kind *)
-Corollary script_engine_independent ss :
+Corollary script_engine_independent k1 k2 ss :
   forallb step_portable ss = true ->
-  run_script true db_empty ss = run_script false db_empty ss.
+  run_script k1 db_empty ss = run_script k2 db_empty ss.
 Proof.
   intro Hp. rewrite !script_refines_reference; auto; exact I.
 Qed.
